@@ -38,6 +38,9 @@ func (r *readOnlyFile) Stat() (hackpadfs.FileInfo, error) {
 }
 
 func (r *readOnlyFile) Truncate(size int64) error {
+	if r.file.closed {
+		return r.file.closedErr("truncate")
+	}
 	// like ftruncate() on a file descriptor which is not open for writing
 	return &hackpadfs.PathError{Op: "truncate", Path: r.file.path, Err: hackpadfs.ErrInvalid}
 }
@@ -56,6 +59,9 @@ type writeOnlyFile struct {
 
 func (w *writeOnlyFile) Read(p []byte) (n int, err error) {
 	// Read is required by hackpadfs.File
+	if w.file.closed {
+		return 0, w.file.closedErr("read")
+	}
 	return 0, &hackpadfs.PathError{Op: "read", Path: w.file.path, Err: hackpadfs.ErrNotImplemented}
 }
 
